@@ -16,7 +16,7 @@ package memory
 //@ lockinv store.mu self s guards contents blobs, size, type blob, type list.Element, type list.List
 //@   invariant accounted: s.size == bsize(s.blobs)
 //@   invariant bounded: s.size <= s.capacity
-//@   invariant blob_ptr: forall k string :: k in s.blobs ==> s.blobs[k] != nil && allocated(s.blobs[k]) && s.blobs[k].data != nil && s.blobs[k].metadatas != nil
+//@   invariant blob_ptr: forall k string :: k in s.blobs ==> s.blobs[k] != nil && allocated(s.blobs[k]) && s.blobs[k].data != nil && allocated(s.blobs[k].data) && s.blobs[k].metadatas != nil
 //@   invariant blob_evictable: forall k string :: k in s.blobs ==> ((s.blobs[k].node != nil) <==> (s.blobs[k].complete && !s.blobs[k].evictionBanned))
 //@   invariant blob_node: forall k string :: k in s.blobs && s.blobs[k].node != nil ==> allocated(s.blobs[k].node) && s.blobs[k].node.list == s.evictQueue && s.blobs[k].node.Value == box(k)
 //@   invariant blob_distinct: forall k1 string, k2 string :: k1 in s.blobs && k2 in s.blobs && k1 != k2 ==> s.blobs[k1] != s.blobs[k2]
@@ -40,12 +40,15 @@ package memory
 //@   ensures missing: !old(key in s.blobs) ==> result != nil
 //@   ensures completed: old(key in s.blobs) ==> result == nil && s.blobs[key].complete && s.blobs[key] == old(s.blobs[key])
 //@   ensures keys_same: forall k string :: (k in s.blobs) <==> old(k in s.blobs)
-//@   loop 0 invariant blob_ptr: forall k string :: k in s.blobs ==> s.blobs[k] != nil && allocated(s.blobs[k]) && s.blobs[k].data != nil && s.blobs[k].metadatas != nil
+//@   loop 0 invariant blob_ptr: forall k string :: k in s.blobs ==> s.blobs[k] != nil && allocated(s.blobs[k]) && s.blobs[k].data != nil && allocated(s.blobs[k].data) && s.blobs[k].metadatas != nil
 //@   loop 0 invariant blob_evictable: forall k string :: k in s.blobs ==> ((s.blobs[k].node != nil) <==> (s.blobs[k].complete && !s.blobs[k].evictionBanned))
 //@   loop 0 invariant blob_node: forall k string :: k in s.blobs && s.blobs[k].node != nil ==> allocated(s.blobs[k].node) && s.blobs[k].node.list == s.evictQueue && s.blobs[k].node.Value == box(k)
 //@   loop 0 invariant blob_distinct: forall k1 string, k2 string :: k1 in s.blobs && k2 in s.blobs && k1 != k2 ==> s.blobs[k1] != s.blobs[k2]
 //@   loop 0 invariant inv_queue: (forall e *list.Element :: e.list == s.evictQueue ==> nodeok(s, e)) && listwf(s.evictQueue) && s.size == bsize(s.blobs) && s.size <= s.capacity
 //@   loop 0 invariant keys_same: (forall k string :: ((k in s.blobs) <==> old(k in s.blobs)) && s.blobs[k] == old(s.blobs[k])) && b == s.blobs[key] && b.complete
+//@   ensures movable_only: old(key in s.blobs) && !old(s.blobs[key].complete) ==> (forall x string :: ((x in s.blobs[key].metadatas) <==> (old(x in s.blobs[key].metadatas) && md_movable(old(s.blobs[key].metadatas[x])))) && ((x in s.blobs[key].metadatas) ==> s.blobs[key].metadatas[x] == old(s.blobs[key].metadatas[x])))
+//@   ensures noop_when_complete: old(key in s.blobs) && old(s.blobs[key].complete) ==> (forall x string :: ((x in s.blobs[key].metadatas) <==> old(x in s.blobs[key].metadatas)) && s.blobs[key].metadatas[x] == old(s.blobs[key].metadatas[x]))
+//@   loop 0 invariant md: b.metadatas == old(s.blobs[key].metadatas) && (forall x string :: ((x in b.metadatas) <==> (old(x in s.blobs[key].metadatas) && !(seen0(x) && !md_movable(old(s.blobs[key].metadatas[x]))))) && ((x in b.metadatas) ==> b.metadatas[x] == old(s.blobs[key].metadatas[x])))
 
 //@ func store.BanEviction
 //@   requires sshape(s)
@@ -76,6 +79,9 @@ package memory
 //@   ensures keys_same: forall k string :: ((k in s.blobs) <==> old(k in s.blobs)) && s.blobs[k] == old(s.blobs[k])
 //@   ensures most_recent: result1 == nil && s.blobs[key].node != nil ==> (forall e *list.Element :: e.list == s.evictQueue ==> e.rank <= s.blobs[key].node.rank)
 //@   ensures size_same: s.size == old(s.size)
+//@   ensures scoped: old(key in s.blobs) ==> ((result1 == nil) <==> !((s.blobs[key].complete && scope == storelib.BlobScopeIncomplete) || (!s.blobs[key].complete && scope == storelib.BlobScopeComplete)))
+//@   ensures handle: result1 == nil ==> result0 != nil && result0.data == s.blobs[key].data && result0.off == 0
+//@   ensures no_handle: result1 != nil ==> result0 == nil
 
 // Delete removes exactly the named blob (if it is in scope), releases exactly its bytes and
 // invalidates its data so that stale handles fail.
@@ -83,17 +89,20 @@ package memory
 //@   requires sshape(s)
 //@   modifies *
 //@   ensures removed: result == nil ==> old(key in s.blobs) && !(key in s.blobs) && s.size == old(s.size) - old(s.blobs[key]).size
-//@   ensures handle_invalidated: result == nil ==> base(deref(old(s.blobs[key]).data)) == 0 && len(deref(old(s.blobs[key]).data)) == 0
+//@   ensures handle_invalidated: result == nil ==> base(deref(old(s.blobs[key].data))) == 0 && len(deref(old(s.blobs[key].data))) == 0
 //@   ensures kept_on_error: result != nil ==> ((key in s.blobs) <==> old(key in s.blobs)) && s.size == old(s.size)
 //@   ensures others: forall k string :: k != key ==> ((k in s.blobs) <==> old(k in s.blobs)) && s.blobs[k] == old(s.blobs[k])
 
 // ---- admission and eviction ------------------------------------------------------------------
-//@ specfunc i_ptr(s *store) bool = forall k string :: k in s.blobs ==> s.blobs[k] != nil && allocated(s.blobs[k]) && s.blobs[k].data != nil && s.blobs[k].metadatas != nil
+//@ specfunc i_ptr(s *store) bool = forall k string :: k in s.blobs ==> s.blobs[k] != nil && allocated(s.blobs[k]) && s.blobs[k].data != nil && allocated(s.blobs[k].data) && s.blobs[k].metadatas != nil
 //@ specfunc i_evictable(s *store) bool = forall k string :: k in s.blobs ==> ((s.blobs[k].node != nil) <==> (s.blobs[k].complete && !s.blobs[k].evictionBanned))
 //@ specfunc i_node(s *store) bool = forall k string :: k in s.blobs && s.blobs[k].node != nil ==> allocated(s.blobs[k].node) && s.blobs[k].node.list == s.evictQueue && s.blobs[k].node.Value == box(k)
 //@ specfunc i_distinct(s *store) bool = forall k1 string, k2 string :: k1 in s.blobs && k2 in s.blobs && k1 != k2 ==> s.blobs[k1] != s.blobs[k2]
 //@ specfunc i_queue(s *store) bool = forall e *list.Element :: e.list == s.evictQueue ==> nodeok(s, e)
-//@ specfunc only_evictions(s *store) bool = forall k string :: (k in s.blobs ==> old(k in s.blobs) && s.blobs[k] == old(s.blobs[k])) && (old(k in s.blobs) && !(k in s.blobs) ==> old(s.blobs[k].complete) && !old(s.blobs[k].evictionBanned) && base(deref(old(s.blobs[k]).data)) == 0)
+//@ specfunc only_evictions(s *store) bool = forall k string :: (k in s.blobs ==> old(k in s.blobs) && s.blobs[k] == old(s.blobs[k])) && (old(k in s.blobs) && !(k in s.blobs) ==> old(s.blobs[k].complete) && !old(s.blobs[k].evictionBanned) && base(deref(old(s.blobs[k].data))) == 0)
+
+//@ specfunc lru_first(s *store) bool = forall k1 string, k2 string :: old(k1 in s.blobs) && !(k1 in s.blobs) && (k2 in s.blobs) && s.blobs[k2].node != nil ==> old(s.blobs[k1].node.rank) < s.blobs[k2].node.rank
+//@ specfunc ranks_same(s *store) bool = forall k string :: (k in s.blobs) && s.blobs[k].node != nil ==> s.blobs[k].node.rank == old(s.blobs[k].node.rank)
 
 // reserveSpace runs with s.mu held. It evicts evictable blobs (complete and not banned) until
 // `space` more bytes fit, reserves them and returns true; or, when nothing is left to evict,
@@ -105,17 +114,194 @@ package memory
 //@   nopanic
 //@   modifies *
 //@   ensures reserved: result ==> s.size == bsize(s.blobs) + space && s.size <= s.capacity
+//@   ensures fits: result ==> space <= s.capacity
+//@   ensures shape: sshape(s) && s.blobs == old(s.blobs) && s.evictQueue == old(s.evictQueue) && s.capacity == old(s.capacity)
 //@   ensures refused: !result ==> s.size == bsize(s.blobs) && s.size <= s.capacity && s.size + space > s.capacity && s.evictQueue.len == 0
 //@   ensures only_evictions: only_evictions(s)
+//@   ensures lru_first: lru_first(s)
+//@   ensures ranks_same: ranks_same(s)
 //@   ensures inv_ptr: i_ptr(s)
 //@   ensures inv_evictable: i_evictable(s)
 //@   ensures inv_node: i_node(s)
 //@   ensures inv_distinct: i_distinct(s)
 //@   ensures inv_queue: i_queue(s) && listwf(s.evictQueue)
 //@   loop 0 invariant acct: s.size == bsize(s.blobs) && s.size <= s.capacity && sshape(s)
+//@   loop 0 invariant shape: s.blobs == old(s.blobs) && s.evictQueue == old(s.evictQueue) && s.capacity == old(s.capacity)
 //@   loop 0 invariant only_evictions: only_evictions(s)
+//@   loop 0 invariant lru_first: lru_first(s)
+//@   loop 0 invariant ranks_same: ranks_same(s)
 //@   loop 0 invariant inv_ptr: i_ptr(s)
 //@   loop 0 invariant inv_evictable: i_evictable(s)
 //@   loop 0 invariant inv_node: i_node(s)
 //@   loop 0 invariant inv_distinct: i_distinct(s)
 //@   loop 0 invariant inv_queue: i_queue(s) && listwf(s.evictQueue)
+
+// Create admits the blob iff reserveSpace does, stores it incomplete and unbanned with exactly the
+// requested size, and evicts nothing but evictable blobs on the way.
+//@ func store.Create
+//@   requires sshape(s) && s.capacity <= 1099511627776
+//@   nopanic
+//@   modifies *
+//@   ensures exists: old(key in s.blobs) ==> result0 == nil && result1 != nil && (forall k string :: ((k in s.blobs) <==> old(k in s.blobs)) && s.blobs[k] == old(s.blobs[k])) && s.size == old(s.size)
+//@   ensures created: result1 == nil ==> result0 != nil && !old(key in s.blobs) && (key in s.blobs) && s.blobs[key].size == sizeBytes && !s.blobs[key].complete && !s.blobs[key].evictionBanned && s.blobs[key].node == nil && fresh(s.blobs[key])
+//@   ensures handle: result1 == nil ==> result0.data == s.blobs[key].data && result0.off == 0 && base(deref(result0.data)) != 0 && len(deref(result0.data)) == 0 && cap(deref(result0.data)) == sizeBytes && tailzero(deref(result0.data))
+//@   ensures refused: result1 != nil ==> result0 == nil && !(key in s.blobs) || old(key in s.blobs)
+//@   ensures others: forall k string :: k != key && (k in s.blobs) ==> old(k in s.blobs) && s.blobs[k] == old(s.blobs[k])
+//@   ensures evicted_only: forall k string :: k != key && old(k in s.blobs) && !(k in s.blobs) ==> old(s.blobs[k].complete) && !old(s.blobs[k].evictionBanned)
+//@   ensures evicted_gone: forall k string :: k != key && old(k in s.blobs) && !(k in s.blobs) ==> base(deref(old(s.blobs[k].data))) == 0
+
+//@ func store.Has
+//@   requires sshape(s)
+//@   ensures in_store: inStore <==> (key in s.blobs)
+//@   ensures in_scope: inScope <==> ((key in s.blobs) && !((s.blobs[key].complete && scope == storelib.BlobScopeIncomplete) || (!s.blobs[key].complete && scope == storelib.BlobScopeComplete)))
+
+//@ func store.Stat
+//@   requires sshape(s)
+//@   ensures missing: !(key in s.blobs) ==> err != nil
+//@   ensures size: err == nil ==> (key in s.blobs) && size == len(deref(s.blobs[key].data))
+
+// ---- handles ---------------------------------------------------------------------------------
+// A File shares the cell *data (a []byte) with its blob; the blob's sliceMu guards that cell and
+// the bytes behind it. Eviction and deletion set the cell to nil under that mutex. Every File
+// operation reads the cell only while holding the mutex (lockdiscipline obligations), so the state
+// it sees is the state at the moment it acquired the lock: on_lock havocs the cell and the bytes
+// there (interference by other goroutines), and old() below means "when the lock was acquired".
+// Bytes between len and cap of a blob's buffer are zero (tailzero): lengths only grow.
+
+//@ specfunc tailzero(d []byte) bool = forall j int :: len(d) <= j && j < cap(d) ==> d[j] == 0
+//@ specfunc fshape(f *File) bool = f != nil && f.data != nil && f.sliceMu != nil && 0 <= f.off && f.off <= 1099511627776
+//@ specfunc gone(f *File) bool = base(deref(f.data)) == 0
+
+//@ func newFile
+//@   ensures result != nil && fresh(result) && result.data == data && result.sliceMu == sliceMu && result.off == 0
+
+//@ func File.getData
+//@   inline
+
+//@ func File.Read
+//@   requires fshape(f)
+//@   on_lock havoc cell f.data, mem deref(f.data)
+//@   nopanic
+//@   modifies f.off, mem p
+//@   ensures empty: len(p) == 0 ==> n == 0 && err == nil && f.off == old(f.off)
+//@   ensures evicted: len(p) > 0 && gone(f) ==> n == 0 && err == ErrEvicted && f.off == old(f.off)
+//@   ensures eof: len(p) > 0 && !gone(f) && old(f.off) >= len(deref(f.data)) ==> n == 0 && err == io.EOF && f.off == old(f.off)
+//@   ensures count: len(p) > 0 && !gone(f) && old(f.off) < len(deref(f.data)) ==> err == nil && n == min(len(p), len(deref(f.data)) - old(f.off)) && f.off == old(f.off) + n
+//@   ensures bytes: forall i int :: 0 <= i && i < n ==> p[i] == old(deref(f.data)[f.off + i])
+//@   ensures rest: forall i int :: n <= i && i < len(p) ==> p[i] == old(p[i])
+//@   ensures data_same: deref(f.data) == old(deref(f.data))
+
+//@ func File.ReadAt
+//@   requires fshape(f)
+//@   on_lock havoc cell f.data, mem deref(f.data)
+//@   nopanic
+//@   modifies mem p
+//@   ensures empty: len(p) == 0 ==> n == 0 && err == nil
+//@   ensures negative: len(p) > 0 && off < 0 ==> n == 0 && err != nil
+//@   ensures evicted: len(p) > 0 && off >= 0 && gone(f) ==> n == 0 && err == ErrEvicted
+//@   ensures eof: len(p) > 0 && off >= 0 && !gone(f) && off >= len(deref(f.data)) ==> n == 0 && err == io.EOF
+//@   ensures count: len(p) > 0 && off >= 0 && !gone(f) && off < len(deref(f.data)) ==> n == min(len(p), len(deref(f.data)) - off) && ((err == nil) <==> (n == len(p))) && (err != nil ==> err == io.EOF)
+//@   ensures bytes: forall i int :: 0 <= i && i < n ==> p[i] == old(deref(f.data)[off + i])
+//@   ensures rest: forall i int :: n <= i && i < len(p) ==> p[i] == old(p[i])
+//@   ensures data_same: deref(f.data) == old(deref(f.data))
+
+//@ func File.Seek
+//@   requires fshape(f)
+//@   on_lock havoc cell f.data, mem deref(f.data)
+//@   nopanic
+//@   modifies f.off
+//@   ensures evicted: gone(f) ==> result0 == 0 && result1 == ErrEvicted && f.off == old(f.off)
+//@   ensures start: !gone(f) && whence == 0 && 0 <= off && off <= len(deref(f.data)) ==> result1 == nil && result0 == off && f.off == off
+//@   ensures current: !gone(f) && whence == 1 && 0 <= old(f.off) + off && old(f.off) + off <= len(deref(f.data)) && -4611686018427387904 <= off && off <= 4611686018427387904 ==> result1 == nil && result0 == old(f.off) + off && f.off == old(f.off) + off
+//@   ensures end: !gone(f) && whence == 2 && 0 <= len(deref(f.data)) + off && off <= 0 ==> result1 == nil && result0 == len(deref(f.data)) + off && f.off == result0
+//@   ensures failed: result1 != nil ==> result0 == 0 && f.off == old(f.off)
+//@   ensures in_extent: result1 == nil ==> 0 <= f.off && f.off <= len(deref(f.data))
+//@   ensures data_same: deref(f.data) == old(deref(f.data))
+
+//@ func File.Size
+//@   requires fshape(f)
+//@   on_lock havoc cell f.data, mem deref(f.data)
+//@   nopanic
+//@   ensures evicted: gone(f) ==> result == -1
+//@   ensures size: !gone(f) ==> result == len(deref(f.data))
+//@   ensures data_same: deref(f.data) == old(deref(f.data))
+
+// The buffer after growing to `end`: same prefix, zero gap, zero tail.
+//@ func resizeSliceIfNecessary
+//@   requires 0 <= len(buf) && len(buf) <= cap(buf) && end <= 1099511627776 && tailzero(buf)
+//@   nopanic
+//@   ensures keep: end <= len(buf) ==> !result1 && result0 == buf
+//@   ensures grown: end > len(buf) ==> result1 && len(result0) == end && cap(result0) >= end
+//@   ensures in_place: end > len(buf) && end <= cap(buf) ==> base(result0) == base(buf) && offset(result0) == offset(buf) && cap(result0) == cap(buf)
+//@   ensures moved: end > cap(buf) ==> fresh(base(result0)) && offset(result0) == 0
+//@   ensures prefix: forall i int :: 0 <= i && i < len(buf) ==> result0[i] == buf[i]
+//@   ensures gap: forall i int :: len(buf) <= i && i < len(result0) ==> result0[i] == 0
+//@   ensures tail: tailzero(result0)
+
+//@ func File.WriteAt
+//@   requires fshape(f) && off + len(p) <= 1099511627776
+//@   requires_locked base(deref(f.data)) != 0 ==> tailzero(deref(f.data))
+//@   on_lock havoc cell f.data, mem deref(f.data)
+//@   nopanic
+//@   modifies cell f.data, mem deref(f.data)
+//@   ensures negative: off < 0 ==> n == 0 && err != nil
+//@   ensures evicted: off >= 0 && old(gone(f)) ==> n == 0 && err == ErrEvicted
+//@   ensures never_resurrected: old(gone(f)) ==> gone(f)
+//@   ensures written: off >= 0 && !old(gone(f)) ==> err == nil && n == len(p) && !gone(f) && len(deref(f.data)) == max(old(len(deref(f.data))), off + len(p))
+//@   ensures bytes: off >= 0 && !old(gone(f)) ==> (forall i int :: 0 <= i && i < len(p) ==> deref(f.data)[off + i] == old(p[i]))
+//@   ensures before: off >= 0 && !old(gone(f)) ==> (forall i int :: 0 <= i && i < old(len(deref(f.data))) && (i < off || i >= off + len(p)) ==> deref(f.data)[i] == old(deref(f.data)[i]))
+//@   ensures gap: off >= 0 && !old(gone(f)) ==> (forall i int :: old(len(deref(f.data))) <= i && i < off ==> deref(f.data)[i] == 0)
+//@   ensures tail: off >= 0 && !old(gone(f)) ==> tailzero(deref(f.data))
+
+//@ func File.Write
+//@   requires fshape(f) && f.off + len(p) <= 1099511627776
+//@   requires_locked base(deref(f.data)) != 0 ==> tailzero(deref(f.data))
+//@   on_lock havoc cell f.data, mem deref(f.data)
+//@   nopanic
+//@   modifies cell f.data, mem deref(f.data), f.off
+//@   ensures evicted: old(gone(f)) ==> n == 0 && err == ErrEvicted && f.off == old(f.off)
+//@   ensures never_resurrected: old(gone(f)) ==> gone(f)
+//@   ensures written: !old(gone(f)) ==> err == nil && n == len(p) && !gone(f) && f.off == old(f.off) + len(p) && len(deref(f.data)) == max(old(len(deref(f.data))), old(f.off) + len(p))
+//@   ensures bytes: !old(gone(f)) ==> (forall i int :: 0 <= i && i < len(p) ==> deref(f.data)[old(f.off) + i] == old(p[i]))
+//@   ensures before: !old(gone(f)) ==> (forall i int :: 0 <= i && i < old(len(deref(f.data))) && (i < old(f.off) || i >= old(f.off) + len(p)) ==> deref(f.data)[i] == old(deref(f.data)[i]))
+//@   ensures gap: !old(gone(f)) ==> (forall i int :: old(len(deref(f.data))) <= i && i < old(f.off) ==> deref(f.data)[i] == 0)
+//@   ensures tail: !old(gone(f)) ==> tailzero(deref(f.data))
+
+// List returns exactly the keys of the blobs in scope.
+//@ specfunc inscope(b *blob, scope storelib.BlobScope) bool = !((b.complete && scope == storelib.BlobScopeIncomplete) || (!b.complete && scope == storelib.BlobScopeComplete))
+
+//@ func store.List
+//@   requires sshape(s)
+//@   ensures sound: forall i int :: 0 <= i && i < len(result) ==> (result[i] in s.blobs) && inscope(s.blobs[result[i]], scope)
+//@   ensures complete: forall k string :: (k in s.blobs) && inscope(s.blobs[k], scope) ==> (exists i int :: 0 <= i && i < len(result) && result[i] == k)
+//@   loop 0 invariant sound: forall i int :: 0 <= i && i < len(res) ==> (res[i] in s.blobs) && inscope(s.blobs[res[i]], scope)
+//@   loop 0 invariant complete: forall k string :: seen0(k) && (k in s.blobs) && inscope(s.blobs[k], scope) ==> (exists i int :: 0 <= i && i < len(res) && res[i] == k)
+//@   loop 0 invariant queue: i_queue(s) && listwf(s.evictQueue)
+
+// ---- metadata ----------------------------------------------------------------------------------
+//@ func store.SetMetadata
+//@   requires sshape(s) && md != nil
+//@   modifies *
+//@   ensures missing: !old(key in s.blobs) ==> result != nil
+//@   ensures scoped: old(key in s.blobs) ==> ((result == nil) <==> inscope(s.blobs[key], scope))
+//@   ensures stored: result == nil ==> (md_suffix(md) in s.blobs[key].metadatas) && s.blobs[key].metadatas[md_suffix(md)] == md
+//@   ensures others: forall x string :: (result != nil || x != md_suffix(md)) && old(key in s.blobs) ==> ((x in s.blobs[key].metadatas) <==> old(x in s.blobs[key].metadatas)) && s.blobs[key].metadatas[x] == old(s.blobs[key].metadatas[x])
+//@   ensures keys_same: forall k string :: ((k in s.blobs) <==> old(k in s.blobs)) && s.blobs[k] == old(s.blobs[k])
+
+//@ func store.DeleteMetadata
+//@   requires sshape(s)
+//@   modifies *
+//@   ensures missing: !old(key in s.blobs) ==> result != nil
+//@   ensures scoped: old(key in s.blobs) ==> ((result == nil) <==> inscope(s.blobs[key], scope))
+//@   ensures removed: result == nil ==> !(mdSuffix in s.blobs[key].metadatas)
+//@   ensures others: forall x string :: (result != nil || x != mdSuffix) && old(key in s.blobs) ==> ((x in s.blobs[key].metadatas) <==> old(x in s.blobs[key].metadatas)) && s.blobs[key].metadatas[x] == old(s.blobs[key].metadatas[x])
+//@   ensures keys_same: forall k string :: ((k in s.blobs) <==> old(k in s.blobs)) && s.blobs[k] == old(s.blobs[k])
+
+// GetMetadata finds the value last set under md's suffix; the copy into md goes through the
+// metadata's own Serialize/Deserialize, which are outside the contract.
+//@ func store.GetMetadata
+//@   requires sshape(s) && md != nil
+//@   ensures missing: !(key in s.blobs) ==> !result0 && result1 != nil
+//@   ensures out_of_scope: (key in s.blobs) && !inscope(s.blobs[key], scope) ==> !result0 && result1 != nil
+//@   ensures absent: (key in s.blobs) && inscope(s.blobs[key], scope) && !(md_suffix(md) in s.blobs[key].metadatas) ==> !result0 && result1 == nil
+//@   ensures present: result0 ==> result1 == nil && (key in s.blobs) && (md_suffix(md) in s.blobs[key].metadatas)
